@@ -153,6 +153,19 @@ func Corpus() []*Case {
 		}, Last: B(IntLit{80})}},
 		ExprStmt{call("frt.Printf1", StrLit{"=%d\n"}, Var{"r"})},
 	}, Final: done}))
+	// the variable arm of a string match with a body of several statements (after seed C06j: the arm's block entered on
+	// the line end after the arrow)
+	out = append(out, mk("string-match-variable-arm-block", nil, &Block{Stmts: []Stmt{
+		Let{"r", SMatch{Target: trS("zz"), Lits: []SArm{{"a", B(IntLit{1})}}, VarName: "other",
+			Last: &Block{Stmts: []Stmt{ExprStmt{call("say", Var{"other"})}, ExprStmt{say("second")}}, Final: If{Cond: trB(true), Then: B(IntLit{2}), Else: B(IntLit{3})}}}},
+		ExprStmt{say("after")},
+		ExprStmt{call("frt.Printf1", StrLit{"=%d\n"}, Var{"r"})},
+	}, Final: done}))
+	// integer literals with leading zeros are decimal (after seed C01k: strconv base 0 made 010 eight)
+	out = append(out, mk("int-literals-with-leading-zeros", nil, &Block{Stmts: []Stmt{
+		ExprStmt{call("frt.Printf1", StrLit{"=%d\n"}, BinOp{"+", BinOp{"+", IntSrc{"010", 10}, IntSrc{"0100", 100}}, BinOp{"+", IntSrc{"007", 7}, IntSrc{"08", 8}}})},
+		ExprStmt{call("frt.Printf1", StrLit{"=%d\n"}, BinOp{"-", IntSrc{"0644", 644}, IntSrc{"00", 0}})},
+	}, Final: done}))
 	out = append(out, mk("nested-if-only-before-outer-default", nil, &Block{Stmts: []Stmt{
 		ExprStmt{Match{Target: Ctor{Case: "N"}, Arms: []Arm{
 			{"I", "_", &Block{Stmts: []Stmt{ExprStmt{say("i")}}, Final: If{Cond: trB(true), Then: B(say("t"))}}},
